@@ -280,6 +280,11 @@ def run(S, tier, rep):
         check_case(S, rep, relfile, cls, dim)
     flow_forces(S, rep)
     run_wrappers(S, rep)
+    # the reaction is computed from the forces at the markers AS THEY ARE NOW and transferred with the current arms: the body-side
+    # evaluation path must refresh positions, velocities, arms and directors before it uses them (def-use rule shared with C09)
+    from .c09 import freshness
+    freshness(S, rep, "C08.g")
+    rep.require_min("C08.g", 40)
     rep.require_min("C08.f", 2)
     rep.require_min("C08.a", 12)
     rep.require_min("C08.c", 8)
